@@ -5,6 +5,7 @@
 (*  {"op":"escape","text":[codes],"out":[codes]}                            *)
 (*  {"op":"label","leaf":bool,"fams":[[codes],..],"same_as_parent":bool,     *)
 (*   "has":bool,"shown":[codes]}                                            *)
+(*  {"op":"leafname","name":[codes],"shown":[codes]}                         *)
 (*  {"op":"wrap","lens":[..],"width":w,"lines":[[..],..]}                    *)
 (***************************************************************************)
 EXTENDS TikzOps, Json, IOUtils, TLCExt
@@ -21,6 +22,7 @@ Clauses(e) ==
          ELSE IF ~e.leaf /\ e.same_as_parent THEN (IF e.shown # <<>> THEN {"ClauseLabelOmittedOnlyWhenEqualToParent"} ELSE {})
          ELSE LET want == JoinFams([i \in DOMAIN e.fams |-> Escape(e.fams[i])]) IN
               IF ~Unbroken(want, e.shown) THEN {"ClauseLabelContent"} ELSE {}
+    [] e.op = "leafname" -> IF e.shown # LeafLabel(e.name) THEN {"ClauseLeafNameEscaped"} ELSE {}
     [] e.op = "wrap" -> WrapClauses(e.lens, e.width, e.lines)
     [] OTHER -> {"ClauseUnknownOp"}
 Judge(e) ==
